@@ -16,9 +16,9 @@ for a, b, c, d, e in itertools.product([False, True], repeat=5):   # same order 
     fx = lambda x: "fixed" if x else "current"
     VARIANTS.append({"name": "endctx=%s,verify=%s,panic=%s,chunk=%s,clone=%s" % (fx(a), fx(b), fx(c), fx(d), fx(e)),
                      "findings": [f for f, fixed in zip(FIX, (a, b, c, d, e)) if not fixed]})
-RULE = ("configuration cases = source {dataset, sample, slow} x transform {none, js, js with parallelism 10 on pages of 15, js whose transform stage panics (injected by the harness), js that returns no entity} x sink "
+RULE = ("configuration cases = source {dataset, sample, slow, http remote, http remote stalling mid-body} x transform {none, js, js with parallelism 10 on pages of 15, js whose transform stage panics (injected by the harness), js that returns no entity, a JavascriptTransform block without code} x sink "
         "{devnull, dataset, dataset that does not exist} x trigger {cron, onchange} x job type x handler set {none, log, rerun, "
-        "log+rerun, unknown type, 'Log'} (+ kill for the slow source): the whole lattice (thorough, 1440 configurations) or the "
+        "log+rerun, unknown type, 'Log'} (+ kill for the slow source and the http remotes, which stall when the job is to be killed): the whole lattice (thorough, 3456 configurations) or the "
         "witnesses plus a PRNG sample of 55 (quick), each through Scheduler.AddJob and the real trigger path in its own process; "
         "barrier cases = 2-8 requesters for ONE job id (mixed flavours) released together by a spinning gate, 20000 (quick) / 100000 (thorough) rounds each, calling raffle.borrowTicket directly; per round the number of tickets held at once; "
         "raffle cases = pool sizes x job objects (ids shared between objects, both kinds) x 4-12 goroutines x 20-60 Run calls each; "
@@ -38,13 +38,14 @@ ASSUMPTIONS = [
 ]
 EXHAUSTIVE = {"thorough": True}
 
-SRC = ["dataset", "sample", "slow"]
-TR = ["none", "js", "jspar", "panic", "empty"]
+SRC = ["dataset", "sample", "slow", "http", "httpmid"]
+KILLABLE = ("slow", "http", "httpmid")
+TR = ["none", "js", "jspar", "panic", "empty", "nocode"]
 SNK = ["devnull", "dataset", "missing"]
 TRIG = ["cron", "onchange"]
 JT = ["incremental", "fullsync"]
 HS = ["none", "log", "rerun", "logrerun", "bad", "Log"]
-COQ = {"dataset": "SDataset", "sample": "SSample", "slow": "SSlow", "none": "TNone", "js": "TJs", "panic": "TPanic", "jspar": "TJsPar", "empty": "TEmpty",
+COQ = {"dataset": "SDataset", "sample": "SSample", "slow": "SSlow", "http": "SHttp", "httpmid": "SHttpMid", "nocode": "TNoCode", "none": "TNone", "js": "TJs", "panic": "TPanic", "jspar": "TJsPar", "empty": "TEmpty",
        "devnull": "KDevNull", "missing": "KMissing", "cron": "GCron", "onchange": "GOnChange", "incremental": "JIncr",
        "fullsync": "JFull"}
 COQ_SNK = {"devnull": "KDevNull", "dataset": "KDataset", "missing": "KMissing"}
@@ -61,14 +62,14 @@ def raffle(capF, capI, jobs, workers, iters):
             "workers": workers, "iters": iters}
 
 
-def barrier(capF, capI, reqs, rounds):
-    return {"kind": "barrier", "capF": capF, "capI": capI, "reqs": list(reqs), "rounds": rounds}
+def barrier(capF, capI, reqs, rounds, distinct=False):
+    return {"kind": "barrier", "capF": capF, "capI": capI, "reqs": list(reqs), "rounds": rounds, "distinct": distinct}
 
 
 def lattice():
     for s, t, k, g, j, h in itertools.product(SRC, TR, SNK, TRIG, JT, HS):
         yield cfg(s, t, k, g, j, h, False)
-        if s == "slow":
+        if s in KILLABLE:
             yield cfg(s, t, k, g, j, h, True)
 
 
@@ -101,6 +102,15 @@ def witness_cases():
         # simultaneous requests for ONE job id released by a spinning gate: never two tickets at once
         barrier(2, 3, [False, True, False, True, False, False, True, False], 20000),
         barrier(5, 10, [False, False], 20000),
+        # pool limits with sizes that differ (configured through the environment like the hub): 6 fullsync jobs with different
+        # ids ask together, never more than JOBS_MAX_FULLSYNC of them hold a ticket; the same for the incremental pool
+        barrier(2, 5, [True] * 6, 3000, True), barrier(4, 2, [False] * 6, 3000, True),
+        # transform block without code (= no transform), http sources, kill while the remote stalls
+        cfg(transform="nocode"), cfg(transform="nocode", jobType="fullsync", handlers="log"),
+        cfg(transform="nocode", trigger="onchange", sink="dataset"),
+        cfg(source="http"), cfg(source="httpmid", jobType="fullsync", sink="dataset"), cfg(source="http", transform="js", handlers="log"),
+        cfg(source="http", kill=True), cfg(source="httpmid", kill=True), cfg(source="http", kill=True, jobType="fullsync", handlers="rerun"),
+        cfg(source="httpmid", kill=True, trigger="onchange", sink="dataset"),
     ]
 
 
@@ -120,6 +130,10 @@ def gen_raffle(rng, count):
 def gen_barrier(rng, count, rounds):
     out = []
     for _ in range(count):
+        if rng.chance(1, 3):
+            kind = rng.chance(1, 2)
+            out.append(barrier(rng.range(1, 4), rng.range(1, 4), [kind] * rng.range(3, 7), max(rounds // 8, 1000), True))
+            continue
         g = rng.range(2, 8)
         out.append(barrier(rng.range(2, 5), rng.range(2, 10), [rng.chance(1, 3) for _ in range(g)], rounds))
     return out
@@ -139,8 +153,14 @@ DIED = {"accepted": False, "live": "died", "result": "none", "stored": "none", "
 
 
 def run(binp, cases):
-    # the driver reads all cases, runs the configuration cases in child processes (6 at a time) and answers in order
-    return vlib.run_driver(binp, cases, died_obs=DIED, timeout_per_case=10)
+    # the driver answers in case order and the harness watchdog wants to see progress: the raffle / barrier cases (run first,
+    # alone) are put in front, the configuration cases (children, 8 at a time) follow; the answers are put back in place
+    order = [i for i, c in enumerate(cases) if c["kind"] != "cfg"] + [i for i, c in enumerate(cases) if c["kind"] == "cfg"]
+    got = vlib.run_driver(binp, [cases[i] for i in order], died_obs=DIED, timeout_per_case=10)
+    obs = [None] * len(cases)
+    for i, o in zip(order, got):
+        obs[i] = o
+    return obs
 
 
 LIVE = {"alive": 0, "died": 1, "hang": 2}
@@ -166,10 +186,10 @@ def term(c, o):
             gauge.append("(%s, %s)" % (vlib.coq_bool(e[1] == 1), vlib.zlit(e[2])))
     reqs = vlib.coq_list([vlib.coq_bool(x) for x in c.get("reqs", [])])
     hist = vlib.coq_list([vlib.zlit(x) for x in o.get("hist") or []])
-    return ("{| t_barrier := %s; t_reqs := %s; t_rounds := %d; ob_hist := %s; ob_badacct := %s; t_iscfg := %s; t_c := %s; t_capF := %d; t_capI := %d; ob_outcome := %d; ob_accepted := %s; ob_live := %d; "
+    return ("{| t_distinct := %s; t_barrier := %s; t_reqs := %s; t_rounds := %d; ob_hist := %s; ob_badacct := %s; t_iscfg := %s; t_c := %s; t_capF := %d; t_capI := %d; ob_outcome := %d; ob_accepted := %s; ob_live := %d; "
             "ob_result := %d; ob_stored := %d; ob_ticket := %s; ob_log := %s; ob_gauge := %s; ob_finalF := %s; ob_finalI := %s; "
             "ob_running := %s |}" % (
-                vlib.coq_bool(c["kind"] == "barrier"), reqs, c.get("rounds", 0), hist, vlib.zlit(o.get("badAcct", -1)),
+                vlib.coq_bool(c.get("distinct", False)), vlib.coq_bool(c["kind"] == "barrier"), reqs, c.get("rounds", 0), hist, vlib.zlit(o.get("badAcct", -1)),
                 vlib.coq_bool(c["kind"] == "cfg"), cf, capF, capI, 0 if o.get("outcome") == "ok" else 1,
                 vlib.coq_bool(o.get("accepted", False)), LIVE.get(o.get("live"), 9), RES.get(o.get("result"), 9),
                 RES.get(o.get("stored"), 9), vlib.coq_bool(o.get("ticket", False)), vlib.coq_list(log), vlib.coq_list(gauge),
